@@ -49,7 +49,7 @@ TEXT = {
         technique='Lean 4 proofs: idempotent re-registration, interned set = reachable set, no duplicates, each definition evaluated exactly once; evaluation counters and alias families observed on the real Registry',
         level="Proof: SIM.C05.register_idempotent (state equal, existing id), interned_eq_reachable (x interned iff reachable from the registered roots), one_entry_per_identity, eval_once (count <= 1, = 1 iff reachable), distinct_ids. Tie: registry stream with repeated / interleaved re-registration through Alias<N,K> (same Identity, different fn pointer) and PhantomData instantiations; oracle counts entries against the reachable set and checks per-identity evaluation counters.",
         design_ref='DESIGN.md §5 C05',
-        note="partial until the meta stream is claimed: the table of std aliases (Box/Rc/Arc/&/&mut, Vec/VecDeque/slice, String/str, PhantomData) is checked by C16's stream; see DESIGN.md.",
+        note="Alias clause: SIM.C05.identity_alias (identity a = identity b <-> AliasEq a b, the least equivalence generated by the statement's wrapper rules), wrappers_share, phantoms_share, distinct_args_distinct, distinct_defs_distinct, tied by the all-pairs meta stream over a generated corpus of real types. The tree carries fix commit b5d2357 (nested transparent wrappers).",
     ),
     'C10': dict(
         technique='Lean 4 proof of retain (totality, well-formedness, keys = reachable set, bijection, entry = original mapped) for all well-formed registries and filters + differential correspondence with hang/panic attribution',
@@ -74,5 +74,11 @@ TEXT = {
         level="Proof: SIM.C17.build_lossless (for EVERY sequence of builder calls and argument values, both forms, both settings of the docs feature: the built type = path, parameters, fields, variants, indices, type names and docs supplied, in the order supplied), field/fields/variant_lossless, phantom_never_listed, tuple_new_spec, portable_keeps_all, fields_order, docs_gating, docs_feature_off_erases, ofDef_spec. Tie: random builder programs run on the real builders by two harness builds (docs off / on), results compared with the declarative spec (SPECFAIL) and the interpreter (DIFF).",
         design_ref='DESIGN.md §5 C17',
         note="The 'never listed by the derive or the built-in impls' clause is observed on the program corpora of C09/C04 and proved for the Impls model in C16's file; builder programs are restricted to what the typestate API lets rustc accept.",
+    ),
+    'C16': dict(
+        technique='Lean 4 proof over all type expressions that equal declared identities imply equal definitions (coherence through wrappers of wrappers) and that MetaType equality/order/hash are functions of the identity + all-pairs comparison of real MetaTypes of a generated type corpus',
+        level="Proof: SIM.C16.eq_iff_identity, identity_idem, typeInfo_identity, identity_coherent (for ALL type expressions over the built-in constructors, to any nesting depth: same declared identity => same definition), meta_eq_full, ord_hash_consistent, impls_never_list_phantom. Tie: a generated program compares every pair of corpus MetaTypes (==, cmp, hash, type_id, type_info) and prints every type_info(); the driver checks internal consistency (SPECFAIL) and agreement with the model's identity / typeInfo (DIFF).",
+        design_ref='DESIGN.md §5 C16',
+        note="Derived and hand-written user types declare Identity = Self (the derive emits it); they are covered by the derive stream's table lookups, not by a theorem. rustc/TypeId trusted.",
     ),
 }
